@@ -158,4 +158,27 @@ def cursorAfter (invs : List Inv) : Nat :=
   | some iv => if asksAgain iv.2.status then iv.1 else 0
   | none => 0
 
+/-- the reply the handler calls of a sequence of invocations ask for: (pending response, status code), folding
+SendHijackReply / SendDirectResponse / TerminateStream in order — declarative reference, used by the predicate -/
+def replyOf : List Verdict → Option Resp × Option Nat → Option Resp × Option Nat
+  | [], acc => acc
+  | v :: r, (resp, code) =>
+    replyOf r (match v.act with
+      | .none => (resp, code)
+      | .hijack k b => (some ⟨b, false⟩, some k)
+      | .direct => (some ⟨false, false⟩, code)
+      | .terminate k => if resp.isSome then (resp, code) else (some ⟨false, false⟩, some k))
+
+/-- the status lets the loop go on to the next filter (Continue; an unknown status string behaves the same) -/
+def continues : FStatus → Bool
+  | .Continue => true
+  | .unknown => true
+  | _ => false
+
+/-- the sender invocations one response makes: filters 0,1,2,… in order, each with its first scripted status, up to
+and including the first one that does not continue — declarative reference -/
+def sendRun : List SFilter → Nat → List SInv
+  | [], _ => []
+  | f :: r, i => (i, f.statusAt 0) :: (if continues (f.statusAt 0) then sendRun r (i + 1) else [])
+
 end MosnVerif.Model.FilterChain
